@@ -54,6 +54,19 @@ type ForkCfg struct {
 	Cfg   *Cfg
 	Chain []string // domain-preserving families (chain steps and forks)
 	Wrap  []string // domain-changing families (forks; at most two of them on a chain)
+	// Costly: chain families whose every level multiplies the cost of one call (ord.New,
+	// as.Ord, ord.ContraMap ask their component up to three times): at most two of them on a
+	// chain, never a chain of their own.
+	Costly []string
+}
+
+func (fc *ForkCfg) costly(fam string) bool {
+	for _, c := range fc.Costly {
+		if c == fam {
+			return true
+		}
+	}
+	return false
 }
 
 func domPreserving(fam string) bool {
@@ -184,14 +197,16 @@ func GenForks(r *rand.Rand, fc *ForkCfg, base *Expr) *ForkPlan {
 	all := append(append([]string{}, fc.Chain...), fc.Wrap...)
 	p := &ForkPlan{ChainLen: 1 + r.IntN(9)}
 	if r.IntN(2) == 0 {
-		p.Pure = fc.Chain[r.IntN(len(fc.Chain))]
+		if f := fc.Chain[r.IntN(len(fc.Chain))]; !fc.costly(f) {
+			p.Pure = f
+		}
 	}
 	add := func(e *Expr, parent int, fam string, level int, chain bool) int {
 		p.Nodes = append(p.Nodes, &ForkNode{Expr: e, Parent: parent, Family: fam, Level: level, OnChain: chain})
 		return len(p.Nodes) - 1
 	}
 	cur := add(base, -1, "", 0, true)
-	wraps := 0
+	wraps, costly := 0, 0
 	for level := 0; ; level++ {
 		parent := p.Nodes[cur].Expr
 		// the forks of this level: one family, different arguments; sometimes one more of another
@@ -214,9 +229,17 @@ func GenForks(r *rand.Rand, fc *ForkCfg, base *Expr) *ForkPlan {
 		// the chain goes on from the same value (one more fork of it)
 		cf := p.Pure
 		if cf == "" {
-			cf = fc.Chain[r.IntN(len(fc.Chain))]
+			for {
+				cf = fc.Chain[r.IntN(len(fc.Chain))]
+				if !fc.costly(cf) || costly < 2 {
+					break
+				}
+			}
 			if wraps < 2 && len(fc.Wrap) > 0 && r.IntN(5) == 0 {
 				cf = fc.Wrap[r.IntN(len(fc.Wrap))]
+			}
+			if fc.costly(cf) {
+				costly++
 			}
 		}
 		variant := first + nf + r.IntN(4)
